@@ -30,6 +30,10 @@ POP = ("param", 2)
 
 
 def check(ctx):
+    from .common import override_audit
+    ctx.floor('R13.1', override_audit(ctx, 'R13.1', ('ec_core::weighted::with_weighted_item::WithWeightedItem',)), 1, 'provided methods of WithWeightedItem (override audit)')
+    from .common import shadowing_audit
+    ctx.floor('R13.1', shadowing_audit(ctx, 'R13.1', ('ec_core::weighted::', 'ec_core::operator::selector::')), 6, 'weighted-combination trait impls of workspace types (shadowing audit)')
     F = ctx.F
     # ---- R13.1 ------------------------------------------------------------------
     f = ctx.fn("ec_core::weighted::weighted_pair::WeightedPair::<A, B>::new")
